@@ -33,7 +33,7 @@ package plot
 //@   assume   [fewer-than-2^62-results] ls.seq < 4611686018427387904 && len(ls.buf) < 4611686018427387904
 //@   modifies ls.buf[*], ls.series[*], ls.seq, ls.began, any(plot.timeSeries), any(tsz.Series)
 //@   ghost released int
-//@   at call Sub: assume [attack-shorter-than-292-years] MinInt64 <= arg0 - arg1 && arg0 - arg1 <= MaxInt64
+//@   at call Sub x*: assume [attack-shorter-than-292-years] MinInt64 <= arg0 - arg1 && arg0 - arg1 <= MaxInt64
 //@   before call add: assert [released-in-sequence-order] p.seq == ls.seq && ls.seq == old(ls.seq) + released ;
 //@        assert [x-is-ms-since-first-request] arg1 == (p.t - ls.began) / 1000000 && arg2 == p.v
 //@   at call add: ghost released = released + 1
